@@ -14,6 +14,16 @@ Definition brace (l : list sexp) : sexp := SList (Atom "brace" :: l).
 Definition bracket (l : list sexp) : sexp := SList (Atom "bracket" :: l).
 Definition dcolon : list sexp := [tk ":"; tk ":"].
 
+(** Rust keywords: an emitted identifier that is one makes [syn::parse_file] of the generated text
+    fail ("Could not parse generated Rust code"), unless it is written raw *)
+Definition rust_keywords : list string :=
+  ["abstract"; "as"; "async"; "await"; "become"; "box"; "break"; "const"; "continue"; "crate"; "do"; "dyn";
+   "else"; "enum"; "extern"; "false"; "final"; "fn"; "for"; "if"; "impl"; "in"; "let"; "loop"; "macro";
+   "match"; "mod"; "move"; "mut"; "override"; "priv"; "pub"; "ref"; "return"; "Self"; "self"; "static";
+   "struct"; "super"; "trait"; "true"; "try"; "type"; "typeof"; "unsafe"; "unsized"; "use"; "virtual";
+   "where"; "while"; "yield"].
+Definition not_keyword (s : string) : bool := negb (existsb (String.eqb s) rust_keywords).
+
 (** identifiers that [format_ident!] accepts (ASCII) *)
 Definition is_ident_start (c : ascii) : bool :=
   let n := N_of_ascii c in
@@ -102,7 +112,7 @@ Fixpoint stype_ok (t : stype) : bool :=
   | TConstPtr t' | TMutPtr t' => stype_ok t'
   | TArray t' _ => stype_ok t'
   | TFunction _ args ret =>
-    forallb (fun a => ident_ok (fst a) && stype_ok (snd a)) args &&
+    forallb (fun a => ident_ok (fst a) && not_keyword (fst a) && stype_ok (snd a)) args &&
     match ret with Some r => stype_ok r | None => true end
   end.
 
@@ -418,11 +428,33 @@ Definition module_definitions (R : registry) (m : smodule) : list item :=
 Definition ev_leb (a b : sextern) : bool :=
   match String.compare (ev_name a) (ev_name b) with Gt => false | _ => true end.
 
+(** the names an item puts into the file in identifier position *)
+Definition fn_names (f : sfunction) : list string :=
+  sf_name f :: flat_map (fun a => match a with SField n _ => [n] | _ => [] end) (sf_args f).
+Definition item_names (it : item) : list string :=
+  match it_cat it, item_resolved it with
+  | Defined, Some rs =>
+    match path_last (it_path it) with Some n => [n] | None => [] end ++
+    match rs_inner rs with
+    | IType td =>
+      flat_map (fun r => match r_name r with Some n => [n] | None => [] end) (td_regions td) ++
+      flat_map fn_names (filter (fun f => negb (sf_is_internal f)) (td_assoc td)) ++
+      match td_vftable td with
+      | Some vt => flat_map fn_names (filter (fun f => negb (sf_is_internal f)) (vt_functions vt))
+      | None => []
+      end
+    | IEnum ed => map fst (ed_fields ed)
+    end
+  | _, _ => []
+  end.
+
 Definition module_file (st : sstate) (m : smodule) : outcome sexp :=
   let R := st_reg st in
   let fuel := S (List.length (reg_types R)) in
   do items <- mapM (build_item R fuel) (module_definitions R m);
   do evs <- mapM build_extern_value (sort ev_leb (m_extern_values m));
+  if negb (forallb not_keyword (flat_map item_names (module_definitions R m)))
+  then Err "Could not parse generated Rust code to pretty-print" else
   Ok (SList (Atom "file" :: attrs_sexp (file_header (m_doc m)) ::
              [SList [Atom "opaque"; Str (prologue_text m)]] ++ List.concat items ++ evs ++
              [SList [Atom "opaque"; Str (epilogue_text m)]])).
